@@ -278,6 +278,7 @@ func runC09(c *Ctx) {
 	// ---- private removal helper + Delete
 	runC09Remove(c, tn)
 	runC09Len(c, tn)
+	runC09Rebuild(c, named)
 }
 
 // traceBool: the value of a boolean abstract value on a finished trace.
@@ -453,4 +454,85 @@ func runC09Len(c *Ctx, tn string) {
 		}
 	}
 	c.Check(len(bad) == 0 && n > 0, "C09-LEN", fnName(fn), "result", fn.Pos(), fmt.Sprintf("%d paths", n), uniqJoin(bad, 3))
+}
+
+// runC09Rebuild: who-may-update the key->element map. Every MapUpdate on the cache's element
+// map inside a loop must be the wholesale rebuild: a range over a map in which every iteration
+// copies the iterated key and element unconditionally. A rebuild that filters entries leaves
+// list elements without a map entry (Len mismatch, a live key that misses, a callback with a
+// nil key on eviction).
+func runC09Rebuild(c *Ctx, named *types.Named) {
+	p := c.P
+	c.Rule("C09-REBUILD", "a loop that refills the key->element map copies every iterated entry unconditionally (key and element of the same iteration)", 0)
+	for _, fn := range p.Funcs {
+		if rn := recvNamed(fn); rn == nil || rn != named {
+			continue
+		}
+		loops := naturalLoops(fn)
+		for _, b := range fn.Blocks {
+			for _, ins := range b.Instrs {
+				mu, ok := ins.(*ssa.MapUpdate)
+				if !ok {
+					continue
+				}
+				// element map: map[...]*list.Element
+				mt, ok := mu.Map.Type().Underlying().(*types.Map)
+				if !ok || !isNamed(mt.Elem(), "container/list", "Element") && !strings.Contains(mt.Elem().String(), "container/list.Element") {
+					continue
+				}
+				var in *loopInfo
+				for _, l := range loops {
+					if l.Body[b] && (in == nil || len(l.Body) < len(in.Body)) {
+						in = l
+					}
+				}
+				if in == nil {
+					continue
+				}
+				c.Sites++
+				var bad []string
+				// the loop is a range over a map: header holds Next on a Range iterator
+				var next *ssa.Next
+				for _, hi := range in.Header.Instrs {
+					if nx, ok := hi.(*ssa.Next); ok && !nx.IsString {
+						next = nx
+					}
+				}
+				if next == nil {
+					bad = append(bad, "the map is refilled in a loop that is not a range over the old map")
+				} else {
+					kx, okK := mu.Key.(*ssa.Extract)
+					vx, okV := mu.Value.(*ssa.Extract)
+					if !okK || !okV || kx.Tuple != next || vx.Tuple != next || kx.Index != 1 || vx.Index != 2 {
+						bad = append(bad, "the entry written is not the key and element of the current iteration")
+					}
+				}
+				// unconditional: no branch inside the body besides the header's
+				for bb := range in.Body {
+					if bb == in.Header {
+						continue
+					}
+					if _, isIf := bb.Instrs[len(bb.Instrs)-1].(*ssa.If); isIf {
+						bad = append(bad, "entries are filtered while the map is rebuilt ("+p.Pos(bb.Instrs[len(bb.Instrs)-1].Pos())+"): an element that stays in the list can lose its map entry")
+					}
+				}
+				if !b.Dominates(latchOf(in)) {
+					bad = append(bad, "the copy does not happen on every iteration")
+				}
+				c.Check(len(bad) == 0, "C09-REBUILD", fnName(fn), "copy-all", mu.Pos(), "every entry copied", uniqJoin(bad, 3))
+			}
+		}
+	}
+}
+
+// latchOf: the (single) block with the back edge to the header; the header itself if none found.
+func latchOf(l *loopInfo) *ssa.BasicBlock {
+	for b := range l.Body {
+		for _, s := range b.Succs {
+			if s == l.Header && b != l.Header {
+				return b
+			}
+		}
+	}
+	return l.Header
 }
